@@ -22,10 +22,10 @@ def run(ctx):
                 steps = [a for f, a, _ in map(lambda e: (g.nodes[e[0]], e[1], e[2]), p)
                          if not (a["label"] == "aCand" and f["j"] > 1)
                          and not (a["label"] == "sEmit" and f["mine"][a["proc"]] == [])]
-                beh.append({"id": len(beh), "pool": pool, "steps": steps, "free": False})
+                beh.append({"id": len(beh), "pool": pool, "steps": steps, "free": False, "restart": len(beh) % 3 == 0})
     nsched = len(beh)
     for j in range(60 if quick else 1500):
-        beh.append({"id": len(beh), "pool": j % 2, "steps": [], "free": True})
+        beh.append({"id": len(beh), "pool": j % 2, "steps": [], "free": True, "restart": j % 2 == 0})
     ctx.log("%d schedules + %d free-running runs" % (nsched, len(beh) - nsched))
     binary = vlib.go_build(ctx, "gatherer")
     infile = vlib.write_json(os.path.join(ctx.work, "behaviours.json"), beh)
@@ -40,6 +40,11 @@ def run(ctx):
     if not pr.get("NilReported") or not pr.get("CandidateOnce"):
         raise vlib.NoVerdict("predicates not exercised: %s" % pr)
     lines = vlib.read_ndjson(trace)
+    rs = [l for l in lines if l["ev"] == "end" and "restart" in l.get("sig", "")]
+    ctx.cov["restart_phases"] = len(rs)
+    ctx.cov["restart_phases_flushed_while_gathering_held"] = sum(1 for l in rs if l.get("sldErr") == "" and l.get("driven"))
+    if rs and not ctx.cov["restart_phases_flushed_while_gathering_held"]:
+        raise vlib.NoVerdict("no ICE-restart phase got as far as the flush")
     ctx.cov["evaluations"] = len(beh)
     ctx.cov["traces_validated_against_impl"] = len(beh)
     distinct = {(b["pool"],) + tuple((s["proc"], s["label"]) for s in b["steps"]) for b in beh if not b["free"]}
